@@ -54,8 +54,6 @@ def build_sdl():
     out.append("type NB implements Node { id: ID! nb: SB nd: [SD] extraB: [SB!] }")
     out.append("union U = NA | NB")
     out.append("input In {\n" + "\n".join(f"  {n}: {t}" for n, t in leaf if not t.endswith("!")) +
-               "\n" + "\n".join(f"  {n}: {t[:-1]}" + "!" + " = " + ("[]" if t.startswith("[") else '"d"') for n, t in leaf
-                                if t.endswith("!") and False) +
                "\n  child: In\n  kids: [In!]\n}")
     out.append("input InReq {\n" + "\n".join(f"  {n}: {t}" for n, t in leaf if t.endswith("!")) + "\n}")
     args = ", ".join(f"{n}: {t}" for n, t in leaf)
@@ -317,7 +315,7 @@ def k1_annotations(ctx, g_snake, g_plain, gs, ssx, leaf):
             for what, got, exp in (("result annotation", got_r, m_res), ("input annotation", got_i, m_in),
                                    ("argument annotation", p and p[1], exp_ann), ("dict value", dv, exp_dv)):
                 if got != exp:
-                    run.violation(f"K1 {what} of {n}: {t} (snake={snake}): generated {got!r} vs model {exp!r}",
+                    argenc.k1v(run, f"K1 {what} of {n}: {t} (snake={snake}): generated {got!r} vs model {exp!r}",
                                   {"field": n, "type": t, "generated": got, "model": exp}, found_input=False)
         # imports: every module, every name coming from a scalar configuration
         for mod, used in (("results.py", SCALARS), ("input_types.py", SCALARS), ("client.py", SCALARS)):
@@ -333,12 +331,12 @@ def k1_annotations(ctx, g_snake, g_plain, gs, ssx, leaf):
                         run.count()
                         obj = nm.rsplit(".", 1)[-1]
                         if obj in names_used and (m, obj) not in got and (m, nm) not in got:
-                            run.violation(f"K1 imports: {mod} uses {obj} of scalar {s} but does not import it from {m}",
+                            argenc.k1v(run, f"K1 imports: {mod} uses {obj} of scalar {s} but does not import it from {m}",
                                           {"module": mod, "imports": sorted(got)})
             for (m, nm) in got:
                 if m in ("vscal", "datetime") and not any((m == mm and nm.rsplit('.', 1)[-1] in [x.rsplit('.', 1)[-1] for x in names])
                                                           for rows in imp.values() for mm, names in rows):
-                    run.violation(f"K1 imports: {mod} imports {nm} from {m}, which no scalar configuration yields",
+                    argenc.k1v(run, f"K1 imports: {mod} imports {nm} from {m}, which no scalar configuration yields",
                                   {"module": mod}, found_input=False)
 
 
@@ -517,15 +515,15 @@ def evaluate(ctx, g, gs, ssx, rows):
                     exp += [[f, raw] for f, raw in occ]
                 ma, mo = model_pylog(m_a), model_pylog(m_occ)
                 if occ is not None and mo is not None and multiset(mo) != multiset([[f, raw] for f, raw in occ]):
-                    run.violation(f"K1 occ_ser of the model differs from the harness oracle for ${n}", dict(rep, var=n, model=mo), found_input=False)
+                    argenc.k1v(run, f"K1 occ_ser of the model differs from the harness oracle for ${n}", dict(rep, var=n, model=mo), found_input=False)
                 if (ma or []) != (mo or [] if occ is not None else []):
                     bad_vars.add(n)
                     if f10 == "t":
-                        run.violation(f"model: arg_log differs from occurrences for ${n} although g_f10 holds", rep, found_input=False)
+                        argenc.k1v(run, f"model: arg_log differs from occurrences for ${n} although g_f10 holds", rep, found_input=False)
             run.dist("serialize_occurrences", f"top-level:{KIND[s]}", len(exp))
             # K1: the model's arg_log is what the implementation did
             if multiset(ser_log) != multiset(m_arg):
-                run.violation(f"K1 Echo{s}: serialize calls {ser_log[:6]} vs model arg_log {m_arg[:6]}", rep, found_input=False)
+                argenc.k1v(run, f"K1 Echo{s}: serialize calls {ser_log[:6]} vs model arg_log {m_arg[:6]}", rep, found_input=False)
             # K3: the property
             problems = []
             if multiset(ser_log) != multiset(exp):
@@ -560,7 +558,7 @@ def evaluate(ctx, g, gs, ssx, rows):
                     if ok == "f":
                         f21 = True
                     if ok == "t" and md != model_pylog(m_occ):
-                        run.violation("model: dlog differs from occ_ser although ok_ty holds", rep, found_input=False)
+                        argenc.k1v(run, "model: dlog differs from occ_ser although ok_ty holds", rep, found_input=False)
             run.dist("serialize_occurrences", "input-model-fields", len(exp))
             if r.get("exc") and r["exc"][0].startswith("args:"):
                 (run.finding if f21 else run.violation)(*((["F21-nonnull-list-nullable-items"] if f21 else []) +
@@ -575,7 +573,7 @@ def evaluate(ctx, g, gs, ssx, rows):
                 missing = multiset(exp) - multiset(ser_log)
                 problems.append(f"serialize calls differ from the non-None occurrences: extra {list(extra)[:3]} missing {list(missing)[:3]}")
             if multiset(ser_log) != multiset(m_log):
-                run.violation(f"K1 inputs: serialize calls {ser_log[:5]} vs model dlog {m_log[:5]}", rep, found_input=False)
+                argenc.k1v(run, f"K1 inputs: serialize calls {ser_log[:5]} vs model dlog {m_log[:5]}", rep, found_input=False)
             sent, intended = r.get("sent") or {}, r.get("intended") or {}
             if "coerced" in sent and "coerced" in intended:
                 if not argenc.same_value(sent["coerced"], intended["coerced"]):
